@@ -173,6 +173,13 @@ def check(case):
             for k in range(n):
                 if not same(back[k], rows[k], dt):
                     return bad("from_numpy_array:row", rows[k].tolist(), np.asarray(back[k]).tolist())
+            # the matrix may come in any memory layout: transposed views, Fortran order, negative strides (the rows are the LOGICAL rows)
+            for nm_, mat in (("transposed view", np.ascontiguousarray(expm.T).T), ("fortran order", np.asfortranarray(expm)),
+                             ("reversed columns view", expm[:, ::-1][:, ::-1] if expm.shape[1] else expm), ("row-reversed view", expm[::-1])):
+                back2 = RaggedArray.from_numpy_array(mat)
+                exp2 = np.asarray(mat)
+                if np.asarray(back2.lengths).tolist() != [exp2.shape[1]] * exp2.shape[0] or not all(same(a, b, dt) for a, b in zip(list(back2), list(exp2))):
+                    return bad("from_numpy_array:" + nm_, exp2.tolist(), back2.tolist())
             rev = RaggedArray.from_numpy_array(expm.copy())[::-1]
             if not all(same(a, b, dt) for a, b in zip(list(rev), rows[::-1])) or len(rev) != n:
                 return bad("from_numpy_array:reversed", [r.tolist() for r in rows[::-1]], rev.tolist())
